@@ -1,15 +1,15 @@
 SPECIFICATION Spec
 CONSTANTS
   Dirs <- MCDirs
-  TypeEncs <- QuickTypeEncs
-  Maxes <- QuickMaxes
-  Methods <- QuickMethods
+  TypeEncs <- MeshTypeEncs
+  Maxes <- OneMax
+  Methods <- OneMethod
   Shardings <- FullShardings
-  Codes <- QuickCodes
-  MeshDirs <- NoMesh
-  MeshNames <- NoMesh
-  Tables <- NoMesh
-  MeshRewritesInfo = "keepAll"
+  Codes <- NoCodes
+  MeshDirs <- MeshDirs2
+  MeshNames <- MeshNames1
+  Tables <- Tables1
+  MeshRewritesInfo = "fromScratch"
   CfgSpace <- QuickCfg
   MaxLen = 6
   AioForwardsMethod = TRUE
@@ -20,3 +20,6 @@ INVARIANT RepeatIsNoop
 INVARIANT SuccessMeansComplete
 INVARIANT SourceUntouched
 INVARIANT ConvertPreserves
+INVARIANT InfoScalesPreserved
+INVARIANT MeshKeyStable
+INVARIANT LinksNeedKey
